@@ -1,6 +1,606 @@
-//! C26 — not implemented yet.
+//! C26 — Window functions match their SQL definition.
+//!
+//! Generator (own): one table `w(id, p1, p2, k1, k2, k3, k4, x, y, s)` —
+//! `id` BIGINT unique/non-NULL (the tiebreak key), partition columns `p1`
+//! BIGINT ∈ {0,1,2,NULL}, `p2` VARCHAR ∈ {'a','b',NULL}, order keys `k1` BIGINT
+//! ∈ {0..3,NULL}, `k2` DOUBLE (multiples of 0.25, NULL), `k3` DATE, `k4` VARCHAR,
+//! value columns `x` BIGINT, `y` DOUBLE, `s` VARCHAR (all nullable) — with
+//! 0–14 rows (thorough: 0–40), random batch layout. A statement projects `id`
+//! and 1–3 window calls (sometimes sharing one window specification, sometimes
+//! nested in an expression: `win + 1`, `COALESCE(win, 0)`, `x - win`, `CASE WHEN win = 1 …`),
+//! optionally after a WHERE on `id`. Calls: ROW_NUMBER, RANK, DENSE_RANK,
+//! PERCENT_RANK, CUME_DIST, NTILE(n), LAG/LEAD(v[,k[,default]]),
+//! FIRST/LAST/NTH_VALUE, COUNT(*)/COUNT/SUM/AVG/MIN/MAX OVER; PARTITION BY 0–2
+//! columns; ORDER BY 0–3 keys (ASC/DESC, NULLS FIRST/LAST); ROWS frames with
+//! every standard-valid bound combination (including empty frames such as
+//! `2 FOLLOWING AND 1 FOLLOWING`); RANGE frames over UNBOUNDED / CURRENT ROW and
+//! numeric offsets over exactly one BIGINT / DOUBLE / DATE key.
+//!
+//! Uniqueness of the SQL answer by construction: a function whose value depends
+//! on the order inside a peer group (ROW_NUMBER, NTILE, LAG/LEAD, anything with a
+//! ROWS frame, FIRST/LAST/NTH_VALUE) gets `id` appended to its ORDER BY — except
+//! value functions whose argument is itself the (single) order key, which keep
+//! real ties; peer-based functions (RANK, DENSE_RANK, PERCENT_RANK, CUME_DIST,
+//! RANGE-framed / default-framed aggregates) are generated with real ties.
+//!
+//! Oracle: `refsql`'s O(n²) window evaluator, validated against SQLite 3.40
+//! (`check --export windows …` + tools/sqlite_crosscheck.py). AVG / PERCENT_RANK /
+//! CUME_DIST compare with relative tolerance 1e-9, everything else exactly.
+//! NT: some call has a partition with ≥ 2 peer groups one of which has ≥ 2 rows,
+//! or an empty frame, or a NULL order key — and the engine answered.
 use super::Property;
+use crate::data::*;
+use crate::runner::*;
+use crate::sqlast::*;
+use crate::sqlcheck::*;
+use crate::sqlgen::{SqlCase, Tape};
+use proptest::prelude::*;
+use std::collections::BTreeSet;
+
+const D0: i32 = 10957;
+
+fn nullable(s: BoxedStrategy<Value>, pct: u32) -> BoxedStrategy<Value> {
+    prop_oneof![pct => Just(Value::Null), (100 - pct) => s].boxed()
+}
+
+fn table_strategy(max_rows: usize) -> BoxedStrategy<Table> {
+    // per-table NULL density so NULL-free tables occur too
+    (prop_oneof![Just(0u32), Just(15u32), Just(35u32)], any::<bool>()).prop_flat_map(move |(pct, null_parts)| {
+        let ppct = if null_parts { pct } else { 0 };
+        let int = |n: i64| (0..n).prop_map(Value::Int).boxed();
+        let row = (
+            nullable(int(3), ppct.max(1)),
+            nullable(prop_oneof![Just("a"), Just("b")].prop_map(|s| Value::Str(s.to_string())).boxed(), ppct.max(1)),
+            nullable(int(4), pct.max(1)),
+            nullable((-2i64..5).prop_map(|k| Value::Double(k as f64 * 0.25)).boxed(), pct.max(1)),
+            nullable((0i32..4).prop_map(|d| Value::Date(D0 + d * 10)).boxed(), pct.max(1)),
+            nullable(prop_oneof![Just("a"), Just("b"), Just(""), Just("ab")].prop_map(|s| Value::Str(s.to_string())).boxed(), pct.max(1)),
+            nullable((-1i64..5).prop_map(Value::Int).boxed(), pct.max(1)),
+            nullable((-4i64..9).prop_map(|k| Value::Double(k as f64 * 0.25)).boxed(), pct.max(1)),
+            nullable(prop_oneof![Just("u"), Just("v"), Just(""), Just("uv")].prop_map(|s| Value::Str(s.to_string())).boxed(), pct.max(1)),
+        );
+        proptest::collection::vec(row, 0..=max_rows).prop_map(move |rows| {
+            let mut out = vec![];
+            for (i, (p1, p2, k1, k2, k3, k4, x, y, s)) in rows.into_iter().enumerate() {
+                // with pct == 0 the `max(1)` above still allows a rare NULL: drop it
+                let z = |v: Value, keep: bool, dflt: Value| if !keep && v.is_null() { dflt } else { v };
+                out.push(vec![
+                    Value::Int(i as i64 + 1),
+                    z(p1, ppct > 0, Value::Int(0)),
+                    z(p2, ppct > 0, Value::Str("a".into())),
+                    z(k1, pct > 0, Value::Int(1)),
+                    z(k2, pct > 0, Value::Double(0.5)),
+                    z(k3, pct > 0, Value::Date(D0)),
+                    z(k4, pct > 0, Value::Str("a".into())),
+                    z(x, pct > 0, Value::Int(2)),
+                    z(y, pct > 0, Value::Double(1.25)),
+                    z(s, pct > 0, Value::Str("u".into())),
+                ]);
+            }
+            let c = |n: &str, ty| Column { name: n.to_string(), ty };
+            Table {
+                name: "w".into(),
+                cols: vec![
+                    c("id", ColType::Int),
+                    c("p1", ColType::Int),
+                    c("p2", ColType::Str),
+                    c("k1", ColType::Int),
+                    c("k2", ColType::Double),
+                    c("k3", ColType::Date),
+                    c("k4", ColType::Str),
+                    c("x", ColType::Int),
+                    c("y", ColType::Double),
+                    c("s", ColType::Str),
+                ],
+                rows: out,
+            }
+        })
+    })
+    .boxed()
+}
+
+fn col(n: &str) -> Expr {
+    Expr::qcol("w", n)
+}
+
+struct G {
+    t: Tape,
+    sqlite: bool,
+    feats: BTreeSet<String>,
+}
+
+#[derive(Clone, Copy, PartialEq, Eq, Debug)]
+enum RTy {
+    Int,
+    Dbl,
+    Other,
+}
+
+impl G {
+    fn feat(&mut self, f: &str) {
+        self.feats.insert(f.to_string());
+    }
+
+    fn order_key(&mut self, name: &str) -> OrderKey {
+        let desc = self.t.chance(40);
+        let nulls_first = if self.t.chance(45) { Some(self.t.chance(50)) } else { None };
+        OrderKey { e: col(name), desc, nulls_first }
+    }
+
+    fn bound_k(&mut self) -> i64 {
+        [1, 0, 2, 3][self.t.pick(4)]
+    }
+
+    /// standard-valid (start, end) pair for ROWS / RANGE-offset frames
+    fn bounds(&mut self, allow_offsets: bool) -> (Bound, Bound) {
+        loop {
+            let start = match self.t.pick(4) {
+                0 => Bound::UnboundedPreceding,
+                1 => Bound::CurrentRow,
+                2 if allow_offsets => Bound::Preceding(self.bound_k()),
+                3 if allow_offsets => Bound::Following(self.bound_k()),
+                _ => Bound::UnboundedPreceding,
+            };
+            let end = match self.t.pick(4) {
+                0 => Bound::CurrentRow,
+                1 => Bound::UnboundedFollowing,
+                2 if allow_offsets => Bound::Following(self.bound_k()),
+                3 if allow_offsets => Bound::Preceding(self.bound_k()),
+                _ => Bound::CurrentRow,
+            };
+            let rank = |b: &Bound| match b {
+                Bound::UnboundedPreceding => 0,
+                Bound::Preceding(_) => 1,
+                Bound::CurrentRow => 2,
+                Bound::Following(_) => 3,
+                Bound::UnboundedFollowing => 4,
+            };
+            // the end bound must not be of a kind that precedes the start bound's kind
+            if rank(&end) >= rank(&start) {
+                return (start, end);
+            }
+            if self.t.exhausted() {
+                return (Bound::UnboundedPreceding, Bound::CurrentRow);
+            }
+        }
+    }
+
+    /// One window call; returns (call, result type class)
+    fn call(&mut self, shared: Option<&(Vec<Expr>, Vec<OrderKey>)>) -> (WindowCall, RTy) {
+        let f = [
+            WinF::RowNumber,
+            WinF::Rank,
+            WinF::DenseRank,
+            WinF::Sum,
+            WinF::Count,
+            WinF::Lag,
+            WinF::Lead,
+            WinF::FirstValue,
+            WinF::LastValue,
+            WinF::NthValue,
+            WinF::Min,
+            WinF::Max,
+            WinF::Avg,
+            WinF::Ntile,
+            WinF::PercentRank,
+            WinF::CumeDist,
+        ][self.t.pick(16)];
+        self.feat(&format!("fn_{}", f.sql().to_lowercase()));
+
+        // partition / order (possibly shared with the previous call)
+        let (partition, mut order): (Vec<Expr>, Vec<OrderKey>) = match shared {
+            Some((p, o)) => (p.clone(), o.clone()),
+            None => {
+                let np = self.t.pick(3);
+                let mut partition = vec![];
+                for n in ["p1", "p2"].iter().take(np) {
+                    partition.push(col(n));
+                }
+                if np == 1 && self.t.chance(40) {
+                    partition = vec![col("p2")];
+                }
+                let nk = self.t.pick(4);
+                let mut order = vec![];
+                let mut used: Vec<&str> = vec![];
+                for _ in 0..nk {
+                    let n = ["k1", "k2", "k3", "k4", "x"][self.t.pick(5)];
+                    if used.contains(&n) {
+                        continue;
+                    }
+                    used.push(n);
+                    order.push(self.order_key(n));
+                }
+                (partition, order)
+            }
+        };
+        self.feat(&format!("partition_by{}", partition.len()));
+
+        // arguments
+        let val_cols = [("x", RTy::Int), ("y", RTy::Dbl), ("s", RTy::Other), ("k1", RTy::Int), ("k3", RTy::Other)];
+        let mut args: Vec<Expr> = vec![];
+        let mut rty = RTy::Other;
+        let mut arg_is_order_key = false;
+        match f {
+            WinF::RowNumber | WinF::Rank | WinF::DenseRank => rty = RTy::Int,
+            WinF::PercentRank | WinF::CumeDist => rty = RTy::Dbl,
+            WinF::Ntile => {
+                args.push(Expr::int(1 + self.t.pick(5) as i64));
+                rty = RTy::Int;
+            }
+            WinF::Count => {
+                if !self.t.chance(50) {
+                    let (n, _) = val_cols[self.t.pick(3)];
+                    args.push(col(n));
+                }
+                rty = RTy::Int;
+            }
+            WinF::Sum | WinF::Avg => {
+                let (n, ty) = val_cols[self.t.pick(2)];
+                args.push(col(n));
+                rty = if f == WinF::Avg { RTy::Dbl } else { ty };
+            }
+            WinF::Min | WinF::Max => {
+                let (n, ty) = val_cols[self.t.pick(5)];
+                args.push(col(n));
+                rty = ty;
+            }
+            WinF::Lag | WinF::Lead => {
+                let (n, ty) = val_cols[self.t.pick(3)];
+                args.push(col(n));
+                rty = ty;
+                if self.t.chance(60) {
+                    args.push(Expr::int(self.t.pick(4) as i64));
+                    if self.t.chance(50) {
+                        self.feat("lag_lead_default");
+                        args.push(match ty {
+                            RTy::Int => {
+                                if self.t.chance(30) {
+                                    col("k1")
+                                } else {
+                                    Expr::int(-7)
+                                }
+                            }
+                            RTy::Dbl => Expr::Lit(Value::Double(9.5)),
+                            RTy::Other => Expr::Lit(Value::Str("dflt".into())),
+                        });
+                    }
+                }
+            }
+            WinF::FirstValue | WinF::LastValue | WinF::NthValue => {
+                // a quarter: argument = the single order key, keeping real ties
+                if order.len() == 1 && self.t.chance(50) {
+                    if let Expr::Col { name, .. } = &order[0].e {
+                        args.push(col(name));
+                        arg_is_order_key = true;
+                        self.feat("value_fn_arg_is_order_key");
+                    }
+                }
+                if args.is_empty() {
+                    let (n, ty) = val_cols[self.t.pick(3)];
+                    args.push(col(n));
+                    rty = ty;
+                }
+                if f == WinF::NthValue {
+                    args.push(Expr::int(1 + self.t.pick(4) as i64));
+                }
+            }
+        }
+
+        // frame
+        let mut frame: Option<Frame> = None;
+        if f.uses_frame() {
+            match self.t.pick(10) {
+                0 | 1 | 2 => {}
+                3 | 4 | 5 | 6 => {
+                    let (s, e) = self.bounds(true);
+                    frame = Some(Frame { rows: true, start: s, end: e });
+                }
+                7 | 8 => {
+                    let (s, e) = self.bounds(false);
+                    frame = Some(Frame { rows: false, start: s, end: e });
+                }
+                _ => {
+                    // RANGE with numeric offsets: exactly one numeric / date key
+                    let key = if self.sqlite { ["k1", "k2", "x"][self.t.pick(3)] } else { ["k1", "k2", "k3", "x"][self.t.pick(4)] };
+                    let k = self.order_key(key);
+                    order = vec![k];
+                    if arg_is_order_key {
+                        args[0] = col(key);
+                    }
+                    let (s, e) = self.bounds(true);
+                    frame = Some(Frame { rows: false, start: s, end: e });
+                    self.feat("range_offset");
+                    if key == "k3" {
+                        self.feat("range_offset_date");
+                    }
+                }
+            }
+        }
+        let range_offset = matches!(&frame, Some(Frame { rows: false, start, end }) if matches!(start, Bound::Preceding(_) | Bound::Following(_)) || matches!(end, Bound::Preceding(_) | Bound::Following(_)));
+        let rows_frame = matches!(&frame, Some(Frame { rows: true, .. }));
+        // open finding window-range-offset-null-keys: a RANGE offset bound paired with the
+        // UNBOUNDED bound on the side where the NULL keys sort loses the NULL-key rows —
+        // mostly steer the NULL placement to the other side
+        if let Some(fr) = &frame {
+            if let Some(side) = risky_null_side(fr) {
+                if order.len() == 1 && order[0].nulls_first.unwrap_or(false) == side && !self.t.chance(30) {
+                    order[0].nulls_first = Some(!side);
+                }
+            }
+        }
+        match &frame {
+            None => self.feat("frame_default"),
+            Some(fr) => {
+                self.feat(if fr.rows { "frame_rows" } else { "frame_range" });
+                let b = |b: &Bound| match b {
+                    Bound::UnboundedPreceding => "up",
+                    Bound::Preceding(_) => "p",
+                    Bound::CurrentRow => "c",
+                    Bound::Following(_) => "f",
+                    Bound::UnboundedFollowing => "uf",
+                };
+                let l = format!("bounds_{}_{}_{}", if fr.rows { "rows" } else { "range" }, b(&fr.start), b(&fr.end));
+                self.feat(&l);
+            }
+        }
+
+        // uniqueness of the answer: order-within-peers sensitive calls get the id tiebreak
+        let order_sensitive = match f {
+            WinF::RowNumber | WinF::Ntile | WinF::Lag | WinF::Lead => true,
+            WinF::FirstValue | WinF::LastValue | WinF::NthValue => !arg_is_order_key || rows_frame,
+            WinF::Count | WinF::Sum | WinF::Avg | WinF::Min | WinF::Max => rows_frame,
+            _ => false,
+        };
+        if order_sensitive {
+            if range_offset {
+                // a RANGE offset frame needs exactly one key: make the call peer-based instead
+                // (value function over the key itself / aggregate) — or drop the frame
+                match f {
+                    WinF::FirstValue | WinF::LastValue | WinF::NthValue => {
+                        if let Expr::Col { name, .. } = &order[0].e {
+                            args[0] = col(name);
+                            rty = RTy::Other;
+                            self.feat("value_fn_arg_is_order_key");
+                        }
+                    }
+                    _ => unreachable!("only frame functions have frames"),
+                }
+            } else {
+                if !order.iter().any(|k| k.e == col("id")) {
+                    let desc = self.t.chance(30);
+                    order.push(OrderKey { e: col("id"), desc, nulls_first: None });
+                }
+                self.feat("tiebreak_id");
+            }
+        } else {
+            self.feat("real_ties_allowed");
+        }
+        self.feat(&format!("order_by{}", order.len().min(4)));
+        (WindowCall { f, args, partition, order, frame }, rty)
+    }
+}
+
+pub fn gen_case(table: Table, tape: Vec<u16>, cuts: Vec<usize>, sqlite: bool) -> SqlCase {
+    let mut g = G { t: Tape::new(tape), sqlite, feats: BTreeSet::new() };
+    let n_calls = 1 + g.t.pick(3);
+    let mut items = vec![Item::Expr(col("id"), Some("id".into()))];
+    let mut prev: Option<(Vec<Expr>, Vec<OrderKey>)> = None;
+    let mut calls: Vec<WindowCall> = vec![];
+    for i in 0..n_calls {
+        let share = prev.is_some() && g.t.chance(40);
+        if share {
+            g.feat("shared_window_spec");
+        }
+        let (c, rty) = g.call(if share { prev.as_ref() } else { None });
+        if !share {
+            // (only the partition and the non-tiebreak order keys are shared)
+            let ord: Vec<OrderKey> = c.order.iter().filter(|k| k.e != col("id")).cloned().collect();
+            prev = Some((c.partition.clone(), ord));
+        }
+        calls.push(c.clone());
+        let w = Expr::Win(Box::new(c));
+        // sometimes nested in an expression
+        let e = match (g.t.pick(10), rty) {
+            (0, RTy::Int) => {
+                g.feat("nested_arith");
+                Expr::bin(w, BinOp::Add, Expr::int(1))
+            }
+            (1, RTy::Int) => {
+                g.feat("nested_coalesce");
+                Expr::Coalesce(vec![w, Expr::int(0)])
+            }
+            (2, RTy::Int) => {
+                g.feat("nested_col_minus_win");
+                Expr::bin(col("x"), BinOp::Sub, w)
+            }
+            (3, RTy::Int) => {
+                g.feat("nested_case");
+                Expr::Case {
+                    operand: None,
+                    whens: vec![(Expr::bin(w, BinOp::Eq, Expr::int(1)), Expr::Lit(Value::Str("one".into())))],
+                    els: Some(Box::new(Expr::Lit(Value::Str("other".into())))),
+                }
+            }
+            _ => w,
+        };
+        items.push(Item::Expr(e, Some(format!("w{}", i + 1))));
+    }
+    g.feat(&format!("calls{}", n_calls));
+    let n = table.rows.len();
+    let where_ = if g.t.chance(20) {
+        g.feat("where");
+        let m = g.t.pick(n + 2) as i64;
+        Some(match g.t.pick(3) {
+            0 => Expr::bin(col("id"), BinOp::Le, Expr::int(m)),
+            1 => Expr::bin(col("id"), BinOp::Ne, Expr::int(m)),
+            _ => Expr::bin(col("id"), BinOp::Gt, Expr::int(m)),
+        })
+    } else {
+        None
+    };
+    let q = Query::select(Select::simple(items, vec![From::Table { name: "w".into(), alias: None }], where_.clone()));
+
+    // ---- structural non-triviality facts (from the data, for the rule)
+    let kept: Vec<&Vec<Value>> = table
+        .rows
+        .iter()
+        .filter(|r| match &where_ {
+            None => true,
+            Some(Expr::Bin(_, op, m)) => {
+                let (id, m) = match (&r[0], &**m) {
+                    (Value::Int(i), Expr::Lit(Value::Int(m))) => (*i, *m),
+                    _ => return true,
+                };
+                match op {
+                    BinOp::Le => id <= m,
+                    BinOp::Ne => id != m,
+                    _ => id > m,
+                }
+            }
+            _ => true,
+        })
+        .collect();
+    let idx = |e: &Expr| -> usize {
+        match e {
+            Expr::Col { name, .. } => table.cols.iter().position(|c| &c.name == name).unwrap_or(0),
+            _ => 0,
+        }
+    };
+    let mut nt_peers = false;
+    let mut nt_null_key = false;
+    let mut nt_empty_frame = false;
+    for c in &calls {
+        let pidx: Vec<usize> = c.partition.iter().map(idx).collect();
+        let oidx: Vec<usize> = c.order.iter().map(|k| idx(&k.e)).collect();
+        let mut parts: Vec<(Vec<Value>, Vec<Vec<Value>>)> = vec![];
+        for r in &kept {
+            let pk: Vec<Value> = pidx.iter().map(|i| r[*i].clone()).collect();
+            let ok: Vec<Value> = oidx.iter().map(|i| r[*i].clone()).collect();
+            if ok.iter().any(|v| v.is_null()) {
+                nt_null_key = true;
+            }
+            match parts.iter_mut().find(|(k, _)| *k == pk) {
+                Some((_, v)) => v.push(ok),
+                None => parts.push((pk, vec![ok])),
+            }
+        }
+        for (_, keys) in &parts {
+            let mut groups: Vec<(&Vec<Value>, usize)> = vec![];
+            for k in keys {
+                match groups.iter_mut().find(|(g, _)| *g == k) {
+                    Some((_, n)) => *n += 1,
+                    None => groups.push((k, 1)),
+                }
+            }
+            if !oidx.is_empty() && groups.len() >= 2 && groups.iter().any(|(_, n)| *n >= 2) {
+                nt_peers = true;
+            }
+        }
+        if let Some(Frame { rows: true, start, end }) = &c.frame {
+            let empty_possible = matches!(start, Bound::Following(k) if *k >= 1) || matches!(end, Bound::Preceding(k) if *k >= 1);
+            if empty_possible && !kept.is_empty() {
+                nt_empty_frame = true;
+            }
+        }
+    }
+    if nt_peers {
+        g.feat("nt_peer_groups");
+    }
+    if nt_null_key {
+        g.feat("nt_null_order_key");
+    }
+    if nt_empty_frame {
+        g.feat("nt_empty_frame");
+    }
+    let cuts_t: Vec<usize> = cuts.iter().map(|c| c % (n + 1)).collect();
+    SqlCase { tables: vec![table], query: q, cuts: vec![cuts_t], features: g.feats.into_iter().collect() }
+}
+
+fn strategy(tier: Tier) -> BoxedStrategy<SqlCase> {
+    let max_rows = tier.pick(14, 40);
+    (table_strategy(max_rows), proptest::collection::vec(any::<u16>(), 0..120), proptest::collection::vec(0usize..41, 0..3))
+        .prop_map(|(t, tape, cuts)| gen_case(t, tape, cuts, false))
+        .boxed()
+}
+
+/// SQLite cross-check profile (`check --export windows …`): no RANGE offsets over DATE keys
+pub fn export_strategy() -> BoxedStrategy<SqlCase> {
+    (table_strategy(10), proptest::collection::vec(any::<u16>(), 0..120), proptest::collection::vec(0usize..41, 0..3))
+        .prop_map(|(t, tape, cuts)| gen_case(t, tape, cuts, true))
+        .boxed()
+}
+
+fn nontrivial(c: &SqlCase, o: &SqlOutcome) -> bool {
+    (has(c, "nt_peer_groups") || has(c, "nt_null_order_key") || has(c, "nt_empty_frame")) && o.engine_rows.is_some()
+}
+
+/// For a RANGE frame with an offset bound: the NULL placement (`true` = NULLS
+/// FIRST) under which the engine drops the NULL-key rows from the frame —
+/// `k PRECEDING/FOLLOWING … UNBOUNDED FOLLOWING` with NULLS LAST, or
+/// `UNBOUNDED PRECEDING … k PRECEDING/FOLLOWING` with NULLS FIRST.
+fn risky_null_side(fr: &Frame) -> Option<bool> {
+    if fr.rows {
+        return None;
+    }
+    let off = |b: &Bound| matches!(b, Bound::Preceding(_) | Bound::Following(_));
+    if off(&fr.start) && fr.end == Bound::UnboundedFollowing {
+        Some(false)
+    } else if off(&fr.end) && fr.start == Bound::UnboundedPreceding {
+        Some(true)
+    } else {
+        None
+    }
+}
+
+fn classify(c: &SqlCase, _ev: &BTreeSet<&'static str>, _msg: &str) -> Option<&'static str> {
+    // some window call has the risky frame / NULL placement AND its order key is NULL in some row
+    let t = &c.tables[0];
+    let mut hit = false;
+    crate::kf_sql::walk_query_exprs(&c.query, &mut |e| {
+        if let Expr::Win(w) = e {
+            if let (Some(fr), [k]) = (&w.frame, &w.order[..]) {
+                if risky_null_side(fr) == Some(k.nulls_first.unwrap_or(false)) {
+                    if let Expr::Col { name, .. } = &k.e {
+                        if let Some(ci) = t.col_index(name) {
+                            if t.rows.iter().any(|r| r[ci].is_null()) {
+                                hit = true;
+                            }
+                        }
+                    }
+                }
+            }
+        }
+    });
+    if hit {
+        Some("window-range-offset-null-keys")
+    } else {
+        None
+    }
+}
 
 pub fn property() -> Property {
-    Property { id: "C26", level: "exploration", assumptions: &[], checks: vec![] }
+    Property {
+        id: "C26",
+        level: "exploration",
+        assumptions: &[
+            "the reference window evaluator (refsql) implements the SQL definitions; it was cross-checked against SQLite 3.40 on the generator's SQLite-comparable sub-dialect (everything except RANGE offsets over DATE keys)",
+            "functions whose value depends on the order inside a peer group are given a unique tiebreak key, so the SQL answer is unique",
+            "AVG / PERCENT_RANK / CUME_DIST are compared with relative tolerance 1e-9; data are multiples of 0.25 so sums are exact",
+            "an engine error is an allowed outcome (unsupported syntax is refused by name)",
+        ],
+        checks: vec![Box::new(SqlCheck {
+            name: "window_answers",
+            rule: "some window call has a partition with >= 2 peer groups one of which has >= 2 rows, or a ROWS frame that is empty for some row, or a NULL order key; and the engine answered",
+            profile: |_| crate::sqlgen::Profile::minimal(),
+            tables: default_tables,
+            quick_cases: 1500,
+            thorough_cases: 60_000,
+            tape_len: 120,
+            depth: 1,
+            nontrivial,
+            classify,
+            strategy: Some(strategy),
+            profile_env: "",
+        })],
+    }
 }
